@@ -106,6 +106,11 @@ func cases(run *ev.Run) []caseSpec {
 	for i := 0; i < nStorm; i++ {
 		out = append(out, caseSpec{id: fmt.Sprintf("storm-%d", i), faults: []fault{{kind: "storm", transport: []string{"direct", "grpc"}[i%2], mode: "mixed", cut: 40 + 20*(i%4)}}, tie: []bool{i%2 == 0}})
 	}
+	// the server as deployed (device.New: TCP + TLS), see deviceCase
+	nDev := run.Pick(8, 120)
+	for i := 0; i < nDev; i++ {
+		out = append(out, caseSpec{id: fmt.Sprintf("device-%d", i), faults: []fault{{kind: "device", transport: "tcp+tls", mode: "mixed"}}, tie: []bool{false}})
+	}
 	nSeq := run.Pick(200, 10000)
 	for i := 0; i < nSeq; i++ {
 		id := fmt.Sprintf("sequence-%d", i)
@@ -182,7 +187,7 @@ func TestCheck(t *testing.T) {
 		}
 	})
 	run.Assume("a message the client sent but whose answer it did not read may or may not have been processed when the client is cancelled or its transport killed over gRPC (any prefix of the unacknowledged messages is accepted); after a half-close, and on direct streams, everything sent was received and must have been processed")
-	run.Finish("fault enumeration: a 5-message Modify script (params, election, three batches incl. a held operation that resolves) cut after each of its 14 send/read steps x {direct: half-close, cancel; gRPC: half-close, cancel, transport kill}; a Get(ALL) over an instance holding 2/5/40/200 entries spread over all five tables, cut after 1..6, n-1, n and inside every table's section x {direct: Send fails; gRPC: cancel, transport kill}; plus seeded sequences of 2-4 such faults on one server; plus disconnect storms (40-100 negotiated sessions cut off one after the other in all modes while fresh sessions keep negotiating, the server's yield points around the session table perturbed). After every fault: contents and highest id/primary vs the model (hooks), then a bounded-progress probe - a new session negotiates, announces max+1 or (every other probe) the very id that is the maximum, adds a next-hop plus the next-hop the cut-off session's held operations were waiting for, reads back with Get exactly what the model predicts (nothing of the departed session may surface, no foreign result on the probe's stream), flushes - each step under a watchdog; a watchdog firing is a violation only if two goroutine dumps prove the server permanently blocked. Distinct = by fault case", 50, false)
+	run.Finish("fault enumeration: a 5-message Modify script (params, election, three batches incl. a held operation that resolves) cut after each of its 14 send/read steps x {direct: half-close, cancel; gRPC: half-close, cancel, transport kill}; a Get(ALL) over an instance holding 2/5/40/200 entries spread over all five tables, cut after 1..6, n-1, n and inside every table's section x {direct: Send fails; gRPC: cancel, transport kill}; plus seeded sequences of 2-4 such faults on one server; plus disconnect storms (40-100 negotiated sessions cut off one after the other in all modes while fresh sessions keep negotiating, the server's yield points around the session table perturbed); plus the server as it is deployed - device.New on a real TCP socket with TLS - hit by TCP connections that never complete the handshake, 20-60 abandoned Modify sessions and 5-25 abandoned Gets before the probe connects. After every fault: contents and highest id/primary vs the model (hooks), then a bounded-progress probe - a new session negotiates, announces max+1 or (every other probe) the very id that is the maximum, adds a next-hop plus the next-hop the cut-off session's held operations were waiting for, reads back with Get exactly what the model predicts (nothing of the departed session may surface, no foreign result on the probe's stream), flushes - each step under a watchdog; a watchdog firing is a violation only if two goroutine dumps prove the server permanently blocked. Distinct = by fault case", 50, false)
 }
 
 // ---------------------------------------------------------------- child side
@@ -721,6 +726,28 @@ func TestChild(t *testing.T) {
 			continue
 		}
 		wr.InFlight(c.id)
+		if strings.HasPrefix(c.id, "device-") {
+			var trace []string
+			dr := rand.New(rand.NewSource(sp.Seed*104729 + hashID(c.id)))
+			probs, inconcl := deviceCase(dr, func(f string, a ...any) { trace = append(trace, fmt.Sprintf(f, a...)) })
+			for _, p := range probs {
+				sig, txt := mon.SplitSig(p)
+				if sig == "HARNESS" {
+					wr.Record(map[string]any{"kind": "inconclusive", "case": c.id, "text": "harness: " + txt})
+					continue
+				}
+				wr.Record(map[string]any{"kind": "problem", "case": c.id, "sig": sig, "text": txt, "trace": trace})
+			}
+			if inconcl != "" {
+				wr.Record(map[string]any{"kind": "inconclusive", "case": c.id, "text": inconcl})
+			}
+			np := 0
+			if len(probs) == 0 && inconcl == "" {
+				np = 1
+			}
+			wr.Record(map[string]any{"kind": "case", "case": c.id, "faults": 1, "probes": np, "compares": 0, "kinds": []string{"device/tcp+tls/mixed"}, "retries": 0})
+			continue
+		}
 		r := rand.New(rand.NewSource(sp.Seed*7919 + int64(len(c.id))))
 		g := gen.New(r)
 		g.S.Default = server.DefaultNetworkInstanceName
@@ -888,4 +915,15 @@ func TestChild(t *testing.T) {
 		}
 		wr.Record(rec)
 	}
+}
+
+func hashID(s string) int64 {
+	var h int64 = 1469598103
+	for i := 0; i < len(s); i++ {
+		h = h*16777619 ^ int64(s[i])
+	}
+	if h < 0 {
+		h = -h
+	}
+	return h
 }
